@@ -305,8 +305,7 @@ impl Report {
                 if nontrivial(&out.stats) {
                     self.nontrivial.insert(history_digest(&out.ops));
                     if self.samples.len() < 3 {
-                        let ops: Vec<String> = out.ops.iter().take(40).map(|o| o.encode()).collect();
-                        self.samples.push(format!("{} :: {}{}", cfg.describe(), ops.join("; "), if out.ops.len() > 40 { format!("; … ({} ops)", out.ops.len()) } else { String::new() }));
+                        self.samples.push(format!("{} :: {}", cfg.describe(), summarize_ops(&out.ops, 45)));
                     }
                 }
                 false
@@ -506,4 +505,33 @@ impl Args {
 pub fn static_prop(p: &str) -> &'static str {
     const ALL: [&str; 17] = ["C01", "C02", "C03", "C04", "C05", "C06", "C07", "C08", "C09", "C10", "C11", "C12", "C13", "C14", "C15", "C16", "C17"];
     ALL.iter().copied().find(|x| *x == p).unwrap_or("")
+}
+
+/// Human-readable rendering of an op list: runs of plain inserts are collapsed.
+pub fn summarize_ops(ops: &[Op], max_items: usize) -> String {
+    let mut items: Vec<String> = Vec::new();
+    let mut i = 0;
+    while i < ops.len() {
+        if ops[i].code == Code::Insert {
+            let mut j = i;
+            while j < ops.len() && ops[j].code == Code::Insert {
+                j += 1;
+            }
+            if j - i >= 4 {
+                items.push(format!("Insert x{} (keys {}..{})", j - i, ops[i].k, ops[j - 1].k));
+                i = j;
+                continue;
+            }
+        }
+        items.push(ops[i].encode());
+        i += 1;
+    }
+    let n = items.len();
+    if n > max_items {
+        let head = items[..max_items / 3].join("; ");
+        let tail = items[n - (max_items - max_items / 3)..].join("; ");
+        format!("{head}; … ; {tail} ({} ops in all)", ops.len())
+    } else {
+        format!("{} ({} ops)", items.join("; "), ops.len())
+    }
 }
